@@ -94,6 +94,8 @@ fn want_of(fields: &[&MField], v9: bool) -> WantFlow {
             (7, _) => w.src_port.free = true,
             (11, FV::U16(p)) => w.dst_port.vals.push(*p),
             (11, _) => w.dst_port.free = true,
+            // a number without a variant in the library's protocol type cannot be projected
+            (4, FV::Proto(145)) if v9 => w.proto.free = true,
             (4, FV::Proto(b)) if v9 => w.proto.vals.push(*b),
             (4, FV::U8(b)) if !v9 => w.proto.vals.push(*b),
             (4, _) => w.proto.free = true,
